@@ -67,9 +67,15 @@ pub fn serve<S: Read + Write>(stream: &mut S, raw: &TcpStream, scripts: &BTreeMa
     let mut buf = vec![0u8; 16384];
     let t0 = Instant::now();
     // phase 1: read the request
+    let mut continue_sent = false;
     loop {
         if conn.complete() || conn.bad().is_some() {
             break;
+        }
+        if conn.wants_continue() && !continue_sent {
+            continue_sent = true;
+            let _ = stream.write_all(b"HTTP/1.1 100 Continue\r\n\r\n");
+            let _ = stream.flush();
         }
         if let Some(r) = reset_after {
             if seen.app_bytes >= r as usize {
